@@ -23,7 +23,8 @@ VARIABLES l,     \* next line of the trace
           mon    \* property-level monitor: [mode, id, inflight, signalled, returned, early, unsig]
 tvars == <<vars, l, mon>>
 
-Mon0 == [mode |-> "none", id |-> 0, live |-> {}, signalled |-> FALSE, returned |-> FALSE, early |-> FALSE, unsig |-> FALSE, open |-> FALSE]
+Mon0 == [mode |-> "none", id |-> 0, live |-> {}, signalled |-> FALSE, returned |-> FALSE, early |-> FALSE, unsig |-> FALSE, open |-> FALSE,
+         dropped |-> FALSE]
 
 ResetVars == /\ catch' = FALSE /\ waker' = 0 /\ pcH' = "idle" /\ hw' = 0 /\ sigs' = 0
              /\ pcA' = "poll" /\ woken' = FALSE /\ registered' = FALSE
@@ -71,13 +72,17 @@ TReturned == /\ l <= N /\ Ev.ev = "returned" /\ Consume /\ UNCHANGED vars
 \* after the interrupt, with sessions in flight, the harness connects again and again until it is refused (i = 1) or gives up after 10 s
 \* (i = 0): in the design `Arrive` is disabled once the loop has been left -- the listener is dropped before the wait, not after it
 TPort == /\ l <= N /\ Ev.ev = "port" /\ Consume /\ UNCHANGED vars /\ mon' = [mon EXCEPT !.open = (Ev.i = 0)]
+\* "acc-open" (burst runs): the number of connections the accept loop has accepted (the hook event of `howl`) whose session has not ended, taken
+\* at the moment `howl` returns: an accepted connection is a session in flight from the moment it is accepted, polled yet or not
+TAccOpen == /\ l <= N /\ Ev.ev = "acc-open" /\ Consume /\ UNCHANGED vars /\ mon' = [mon EXCEPT !.dropped = (Ev.i > 0)]
 \* informational events
-TInfo == /\ l <= N /\ Ev.ev \in {"release", "grace-over", "unserved", "port-probes-accepted"} /\ Consume /\ UNCHANGED <<vars, mon>>
+TInfo == /\ l <= N /\ Ev.ev \in {"release", "grace-over", "unserved", "port-probes-accepted", "client-bytes"} /\ Consume /\ UNCHANGED <<vars, mon>>
 
 \* ------------------------------------------------------------------ verdict
 Sig(e) == IF mon.mode = "proto"
             THEN IF ~e.returned THEN "lost-wakeup" ELSE "ok"
             ELSE IF mon.early THEN "returned-with-session-in-flight"
+                 ELSE IF mon.dropped THEN "returned-with-an-accepted-connection-unserved"
                  ELSE IF mon.open THEN "still-listening-after-the-interrupt"
                  ELSE IF mon.unsig THEN "returned-without-interrupt"
                  ELSE IF mon.signalled /\ ~e.returned THEN "never-returned"
@@ -88,7 +93,7 @@ TEnd == /\ l <= N /\ Ev.ev = "end" /\ Consume /\ UNCHANGED vars
                           drift |-> (Returned # Ev.returned)]))
         /\ mon' = Mon0
 
-TNext == TReset \/ TSkip \/ TAct \/ Silent \/ TArrive \/ TStarted \/ TEnded \/ TSignal \/ TReturned \/ TPort \/ TInfo \/ TEnd
+TNext == TReset \/ TSkip \/ TAct \/ Silent \/ TArrive \/ TStarted \/ TEnded \/ TSignal \/ TReturned \/ TPort \/ TAccOpen \/ TInfo \/ TEnd
 TSpec == TInit /\ [][TNext]_tvars
 
 \* the invariants of the design hold in every state of every explained run
